@@ -60,7 +60,7 @@ pub fn generate(rng: &mut Rng, tier: Tier) -> Scenario {
     let faulty = g.below(3) != 0; // a third of all runs is fault-free
     let all_true = g.chance(55, 100);
     let mut params = ParamSpec {
-        max_gas_per_predicate: *g.pick(&[20_000u64, 20_000, 60_000, 60_000, 200_000]),
+        max_gas_per_predicate: *g.pick(&[4_000u64, 4_000, 10_000, 10_000, 30_000]),
         max_gas_per_tx: 100_000_000,
         chain_id: g.below(4),
         ecal_enabled: g.bool(),
